@@ -43,16 +43,18 @@ JudgeGob(e) ==
     ELSE IF e.nodes2 # e.nodes1 THEN "decoded automaton differs (nodes, ids, numWords, links)"
     ELSE IF e.nodes3 # e.nodes1 THEN "automaton decoded through encoding/gob differs"
     ELSE IF e.dec4_err # "" \/ e.nodes4 # e.nodes1 THEN "decoding into a Dawg that already held another automaton does not replace its contents"
+    ELSE IF ~e.same4 THEN "a Dawg that was encoded, then overwritten by GobDecode, encodes to different bytes than the automaton it now holds"
     ELSE IF e.nwords2 # Len(acc) THEN "decoded NumberOfWords differs"
     ELSE IF ~e.same_bytes THEN "encoding the decoded automaton gives different bytes"
     ELSE IF ~e.b1_stable THEN "the bytes returned by GobEncode changed when other automata were encoded afterwards (the result shares memory with later calls)"
     ELSE IF \E k \in 1..Len(e.lookups2) : LET q == e.lookups2[k]  i == IndexOf(q.w) IN (q.ok # (i # 0)) \/ (q.ok /\ q.id # i - 1)
          THEN "Lookup on the decoded automaton is wrong"
-    ELSE IF e.b1 = <<>> THEN ""      \* stream too long to ship; only the round trip was judged
-    ELSE LET p == Codec!ParseDawg(e.b1) IN
-         IF ~p.ok THEN "the bytes do not parse under the specification's grammar"
-         ELSE IF Len(p.nodes) > 0 /\ Len(p.nodes) <= 400 /\ TableWhy(p.nodes, W) # "" THEN "bytes parse to an automaton that is wrong: " \o TableWhy(p.nodes, W)
-         ELSE ""
+    ELSE ""
+(* The byte layout itself is not part of the property (a layout changed consistently in encoder and decoder keeps every statement of   *)
+(* C14 true), so the independent grammar reader of DawgCodec.tla gives no verdict: it only counts, for the evidence file, how many     *)
+(* streams parse to a correct index of the word set under the layout of the pinned tree.                                                *)
+GrammarAgrees(e) == e.res = "ok" /\ e.enc_err = "" /\ e.b1 # <<>> /\
+                    LET p == Codec!ParseDawg(e.b1) IN p.ok /\ (Len(p.nodes) = 0 \/ Len(p.nodes) > 400 \/ TableWhy(p.nodes, W) = "")
 
 TInit == l = 1 /\ acc = <<>> /\ act = [op |-> "New", w |-> <<>>, err |-> FALSE] /\ dead = FALSE /\ bad = <<>> /\ fin = FALSE /\ outs = <<>>
          /\ st = [segs |-> 0, adds |-> 0, rejected |-> 0, finishes |-> 0, tables |-> 0, lookups |-> 0, hits |-> 0,
@@ -102,7 +104,7 @@ TStep ==
        THEN /\ Flag(Search!JudgeSearch(acc, Ev)) /\ UNCHANGED <<acc, act, fin, outs>>
             /\ st' = [st EXCEPT !.searches = @ + 1, !.matches = @ + Len(Ev.sol)]
        ELSE /\ Flag(JudgeGob(Ev)) /\ UNCHANGED <<acc, act, fin, outs>>
-            /\ st' = [st EXCEPT !.gobs = @ + 1, !.parsed = @ + (IF Ev.b1 # <<>> THEN 1 ELSE 0)]
+            /\ st' = [st EXCEPT !.gobs = @ + 1, !.parsed = @ + (IF GrammarAgrees(Ev) THEN 1 ELSE 0)]
 
 Report == ReportLine(l, [bad |-> bad, st |-> st, events |-> NEvents])
 ProtocolOK == \A i \in 1..(Len(acc) - 1) : LexLess(acc[i], acc[i+1])
